@@ -113,6 +113,33 @@ Section WithOracle.
     - intro H. inversion H; subst. now apply tb_init_raises_only_lib in E.
   Qed.
 
+  (* exactly the classes both reader loops catch (stream.py and queue.py: InvalidNMEAMessageException,
+     NonPrintableCharacterException, UnknownMessageException): nothing else ever leaves put_sentence *)
+  Lemma tbq_put_raises_only_reader_set : forall st s e,
+    tbq_put uni st s = Raise e ->
+    e = Lib InvalidNMEAMessageException \/ e = Lib NonPrintableCharacterException \/ e = Lib UnknownMessageException.
+  Proof. intros st s e H. left. eapply tbq_put_raise_is_invalid_nmea; eauto. Qed.
+
+  (* put_sentence can only raise from tb.init(), its first action on a sentence with a tag block: `groups` has not
+     been touched at that point (and the model returns no new state with a Raise) *)
+  Lemma tbq_put_raise_only_from_init : forall st s e,
+    tbq_put uni st s = Raise e ->
+    exists raw, c_tag_block (sentence_common s) = Some raw /\ tb_init uni raw = Raise e.
+  Proof.
+    intros st s e. unfold tbq_put.
+    destruct (c_tag_block (sentence_common s)) as [raw|]; [|discriminate].
+    destruct (tb_init uni raw) as [t|e'] eqn:E; simpl.
+    - destruct (tb_group t) as [[[n tot] gid]|]; [|discriminate].
+      destruct (tot =? 1); [discriminate|]. destruct (n =? 1); [discriminate|].
+      destruct (tbq_get st gid) as [[tot0 l]|]; [|discriminate].
+      destruct (negb _); discriminate.
+    - intro H. inversion H; subst. eauto.
+  Qed.
+
+  (* the caller's view: a raising put_sentence leaves the queue as it was and delivers nothing *)
+  Lemma tbq_step_raise_keeps_state : forall st s e, tbq_put uni st s = Raise e -> tbq_step uni st s = (st, []).
+  Proof. intros st s e H. unfold tbq_step. now rewrite H. Qed.
+
   (* clause 1 of C17, in every state: no group, or a group of one -> delivered at once, `groups` untouched *)
   Lemma tbq_put_passthrough : forall st s g,
     tbq_sentence_group uni s = Ok g ->
